@@ -138,7 +138,7 @@ theorem MakeCookieFromOptions_eq (E : Go.Ext) (req : Go.Req) (host name value : 
       · simp [hp, hn, toHttp, Ck.makeCookie, cfgOf]
       · simp [hp, hn, toHttp, Ck.makeCookie, cfgOf]
 
-def Ex : Go.Ext := ⟨fun _ _ => [], fun _ => [], 0, Ck.splitHostPortGo, fun _ _ => false, fun _ => none, fun _ => none⟩
+def Ex : Go.Ext := { Go.Ext.trivial with splitHostPortStd := Ck.splitHostPortGo }
 def rq (h : Str) : Go.Req := { header := fun _ => [], host := h, urlScheme := [], requestURI := [], scope := none }
 
 /-- the hypothesis `EmptyLast` cannot be dropped: with an empty domain listed FIRST the code falls back to the
